@@ -114,6 +114,8 @@ def mergeFnOf (name : String) : MergeFn :=
   | "concat" => fun _ vs => some vs.flatten
   | "first" => fun _ vs => some (vs.headD [])
   | "sum" => fun _ vs => some (sumLE vs)
+  -- `frame`: not associative on purpose — the number of values of the call, then each value framed by its length
+  | "frame" => fun _ vs => some (le32 vs.length ++ vs.flatMap (fun v => le32 v.length ++ v))
   -- `bag`: values are bags of pieces (le32 length + bytes)*; merge = sorted union of the bags.
   -- Associative, commutative, and the identity on a lone well-formed bag with sorted pieces.
   | "bag" => fun _ vs =>
